@@ -44,6 +44,52 @@ func candidates(sc *Scenario) []func() *Scenario {
 			return c
 		})
 	}
+	// inflector batches: histories, clients, calls
+	if sc.Infl != nil {
+		ic := sc.Infl
+		if len(ic.Histories) > 1 {
+			// halves first, then single histories
+			half := len(ic.Histories) / 2
+			add(func(c *Scenario) bool { c.Infl.Histories = c.Infl.Histories[:half]; return true })
+			add(func(c *Scenario) bool { c.Infl.Histories = c.Infl.Histories[half:]; return true })
+			for hi := len(ic.Histories) - 1; hi >= 0; hi-- {
+				hi := hi
+				add(func(c *Scenario) bool {
+					c.Infl.Histories = append(c.Infl.Histories[:hi], c.Infl.Histories[hi+1:]...)
+					return true
+				})
+			}
+		}
+		for hi, h := range ic.Histories {
+			hi := hi
+			if len(h.Clients) > 1 {
+				for ci := range h.Clients {
+					ci := ci
+					add(func(c *Scenario) bool {
+						hh := &c.Infl.Histories[hi]
+						hh.Clients = append(hh.Clients[:ci], hh.Clients[ci+1:]...)
+						hh.Schedule = nil
+						return true
+					})
+				}
+			}
+			for ci, cl := range h.Clients {
+				ci := ci
+				if len(cl) <= 1 {
+					continue
+				}
+				for k := range cl {
+					k := k
+					add(func(c *Scenario) bool {
+						hh := &c.Infl.Histories[hi]
+						hh.Clients[ci] = append(hh.Clients[ci][:k], hh.Clients[ci][k+1:]...)
+						hh.Schedule = nil
+						return true
+					})
+				}
+			}
+		}
+	}
 	// variants (keep variant 0, the comparison base)
 	if len(sc.Variants) > 2 {
 		for vi := len(sc.Variants) - 1; vi >= 1; vi-- {
